@@ -307,9 +307,18 @@ def file_number(rep, prog):
         rep.violation("C19.file-number", prog, fn, wr[0] if wr else None, "save_mesh: %s" % why[:70], "save_mesh: %s: files are skipped, duplicated or the pair of files of one snapshot gets different numbers" % why)
     it = prog.fn("solver::run_iteration")
     ii = prog.index(it)
-    first = it["body"]["c"][0]
-    calls = [n for n in walk(first) if is_call(n) and n.get("callee") == "solver::save_mesh"]
-    if calls:
-        rep.ok("C19.file-number", prog, it, calls[0], "save_mesh is the first action of every iteration")
+    calls = [n for n in walk(it["body"]) if is_call(n) and n.get("callee") == "solver::save_mesh"]
+    why = None
+    if len(calls) != 1:
+        why = "save_mesh is called %d times in run_iteration" % len(calls)
     else:
-        rep.violation("C19.file-number", prog, it, first, "save_mesh is not called at the start of each iteration", "run_iteration must start by calling save_mesh")
+        if ii.enclosing(calls[0], ("ForStmt", "WhileStmt", "DoStmt", "CXXForRangeStmt", "LambdaExpr")) is not None:
+            why = "save_mesh is called inside a loop"
+        for c, pol in ii.guards(calls[0]):
+            t = render(strip(c)).replace(" ", "")
+            if not (("is_step_tmp()" in t) and ((t.startswith("!") and pol) or (not t.startswith("!") and not pol))):
+                why = "save_mesh is only called under %s%s" % ("" if pol else "not ", short(c, 60))
+    if why is None:
+        rep.ok("C19.file-number", prog, it, calls[0], "save_mesh is called once in every (non-temporary) iteration: the file number can never skip a value when S >= dt")
+    else:
+        rep.violation("C19.file-number", prog, it, calls[0] if calls else None, "save_mesh is not called once per iteration", "run_iteration: %s: sampling points are skipped (gaps in the numbering) or written twice" % why)
